@@ -98,7 +98,9 @@ func (p *Pools) valuesFor(t reflect.Type) []reflect.Value {
 		a.Set(reflect.ValueOf(stackage.Ne))
 		b := reflect.New(tOperator).Elem()
 		b.Set(reflect.ValueOf(UserOp{"~=", "custom"}))
-		return []reflect.Value{a, b, reflect.Zero(tOperator)}
+		c := reflect.New(tOperator).Elem()
+		c.Set(reflect.ValueOf((*stackage.ComparisonOperator)(nil))) // typed nil pointer satisfying Operator
+		return []reflect.Value{a, b, reflect.Zero(tOperator), c}
 	case t == tAux:
 		return []reflect.Value{reflect.ValueOf(stackage.Auxiliary{"k": 1}), reflect.Zero(tAux)}
 	case t.Kind() == reflect.Func:
